@@ -18,7 +18,7 @@ def run(tier, seed):
         if rel:
             build_harness(release=True)
         tp = os.path.join(OUT, "traces", "C17-serde.ndjson")
-        evs = vh_trace(["mg-serde", "--seed", seed + (31 if rel else 0), "--segments", 500 if th else 100, "--len", 70 if th else 50], tp, release=rel)
+        evs = vh_trace(["mg-serde", "--seed", seed + (31 if rel else 0), "--segments", 1500 if th else 160, "--len", 70 if th else 50], tp, release=rel)
         docs = [e for e in evs if e.get("op") == "ser" and "doc" in e]
         if docs:
             run.sample({"ser_doc": docs[len(docs) // 2]["doc"]})
